@@ -1,10 +1,11 @@
 package main
 
 import (
+	"fmt"
 	"go/token"
-	"strconv"
 	"go/types"
 	"regexp"
+	"strconv"
 
 	"golang.org/x/tools/go/ssa"
 )
@@ -291,6 +292,11 @@ type PathSearch struct {
 	From          ssa.Instruction // start right after this instruction; nil = entry
 	IsTarget      func(ssa.Instruction) bool
 	NoRecoverEdge bool
+	AvoidEntry    map[entryKey]bool // forbidden transitions pred → block
+	// KeepFailureEntries: also follow transitions into a return block that carry a failure value
+	KeepFailureEntries bool
+	// InitState: flag values known at the start of the search
+	InitState boolState
 }
 
 type pathStep struct {
@@ -322,14 +328,153 @@ func infeasibleEdges(fn *ssa.Function) map[edgeKey]bool {
 	return m
 }
 
+// entryKey is a transition pred → block.
+type entryKey struct{ pred, b *ssa.BasicBlock }
+
+// failureEntries: transitions into a return block on which the returned error / bool φ carries a
+// known failure value (a non-nil error construct, the constant false): such a transition is never
+// part of a path to a success exit. (`return a && b` is lowered to a φ{false, b} in the return block.)
+func failureEntries(fn *ssa.Function) map[entryKey]bool {
+	m := map[entryKey]bool{}
+	for _, b := range fn.Blocks {
+		if len(b.Instrs) == 0 {
+			continue
+		}
+		ret, ok := b.Instrs[len(b.Instrs)-1].(*ssa.Return)
+		if !ok || len(ret.Results) == 0 {
+			continue
+		}
+		ph, ok := ret.Results[len(ret.Results)-1].(*ssa.Phi)
+		if !ok || ph.Block() != b {
+			continue
+		}
+		isErr := types.Identical(ph.Type(), errorType)
+		bt, isB := ph.Type().Underlying().(*types.Basic)
+		isBool := isB && bt.Kind() == types.Bool
+		for k, e := range ph.Edges {
+			switch {
+			case isErr:
+				if classifyErr(e, map[ssa.Value]bool{}) == exitFailure {
+					m[entryKey{b.Preds[k], b}] = true
+				}
+			case isBool:
+				if c, ok := e.(*ssa.Const); ok && c.Value != nil && c.Value.String() == "false" {
+					m[entryKey{b.Preds[k], b}] = true
+				}
+			}
+		}
+	}
+	return m
+}
+
+// boolState: the known values of the tracked boolean φ-nodes (flags assigned constants on some
+// paths, e.g. `allowed := false; switch mode { case A: allowed = true }`), keyed by φ.
+type boolState map[*ssa.Phi]bool
+
+func (st boolState) key(order []*ssa.Phi) string {
+	b := make([]byte, len(order))
+	for i, ph := range order {
+		v, ok := st[ph]
+		switch {
+		case !ok:
+			b[i] = '?'
+		case v:
+			b[i] = 'T'
+		default:
+			b[i] = 'F'
+		}
+	}
+	return string(b)
+}
+
+// trackedBoolPhis: the boolean φ-nodes of fn (flags).
+func trackedBoolPhis(fn *ssa.Function) []*ssa.Phi {
+	var out []*ssa.Phi
+	for _, b := range fn.Blocks {
+		for _, in := range b.Instrs {
+			ph, ok := in.(*ssa.Phi)
+			if !ok {
+				break
+			}
+			bt, isB := ph.Type().Underlying().(*types.Basic)
+			if !isB || bt.Kind() != types.Bool || len(out) >= 16 {
+				continue
+			}
+			out = append(out, ph)
+		}
+	}
+	return out
+}
+
+// dominatingFlagValues: flags whose value is fixed at block b because b is dominated by one
+// side of a branch on the flag (that side's block has the branch block as its only predecessor).
+func dominatingFlagValues(b *ssa.BasicBlock) boolState {
+	out := boolState{}
+	for d := b; d != nil; d = d.Idom() {
+		id := d.Idom()
+		if id == nil {
+			break
+		}
+		iff, ok := id.Instrs[len(id.Instrs)-1].(*ssa.If)
+		if !ok || len(d.Preds) != 1 || d.Preds[0] != id || id.Succs[0] == id.Succs[1] {
+			continue
+		}
+		c := iff.Cond
+		neg := false
+		for {
+			if u, ok := c.(*ssa.UnOp); ok && u.Op == token.NOT {
+				c, neg = u.X, !neg
+				continue
+			}
+			break
+		}
+		ph, ok := c.(*ssa.Phi)
+		if !ok || ph.Block() == id {
+			continue
+		}
+		if _, dup := out[ph]; dup {
+			continue
+		}
+		out[ph] = (id.Succs[0] == d) != neg
+	}
+	return out
+}
+
+// Reached is one way a search reached a target: the instruction, the path and the flag state there.
+type Reached struct {
+	Instr ssa.Instruction
+	Path  []*ssa.BasicBlock
+	State boolState
+}
+
 // Find returns (target instruction, path blocks) or (nil, nil).
 func (s *PathSearch) Find() (ssa.Instruction, []*ssa.BasicBlock) {
-	if len(s.Fn.Blocks) == 0 {
+	r := s.search(true)
+	if len(r) == 0 {
 		return nil, nil
 	}
+	return r[0].Instr, r[0].Path
+}
+
+// FindAll returns every distinct (target, flag state) the search can reach.
+func (s *PathSearch) FindAll() []Reached { return s.search(false) }
+
+// search is a breadth-first search over (block, predecessor, flag state). The flag state makes the
+// search path-sensitive for boolean variables that are assigned constants: entering a φ's block
+// from a predecessor whose incoming value is a constant fixes the flag, and a later branch on the
+// flag (or its negation) is followed only in the feasible direction.
+func (s *PathSearch) search(firstOnly bool) []Reached {
+	if len(s.Fn.Blocks) == 0 {
+		return nil
+	}
 	infeas := infeasibleEdges(s.Fn)
+	failIn := failureEntries(s.Fn)
+	tracked := trackedBoolPhis(s.Fn)
+	phisOf := map[*ssa.BasicBlock][]*ssa.Phi{}
+	for _, ph := range tracked {
+		phisOf[ph.Block()] = append(phisOf[ph.Block()], ph)
+	}
 	scan := func(b *ssa.BasicBlock, start int) (ssa.Instruction, bool) {
-		// returns (target, blocked)
 		for i := start; i < len(b.Instrs); i++ {
 			in := b.Instrs[i]
 			if s.IsTarget(in) {
@@ -341,59 +486,173 @@ func (s *PathSearch) Find() (ssa.Instruction, []*ssa.BasicBlock) {
 		}
 		return nil, false
 	}
-	visited := map[visitKey]bool{}
-	var queue []*pathStep
+	type step struct {
+		b    *ssa.BasicBlock
+		from *ssa.BasicBlock
+		st   boolState
+		prev *step
+	}
+	type vkey struct {
+		b, from *ssa.BasicBlock
+		st      string
+	}
+	pathOf := func(x *step) []*ssa.BasicBlock {
+		var path []*ssa.BasicBlock
+		for ; x != nil; x = x.prev {
+			path = append([]*ssa.BasicBlock{x.b}, path...)
+		}
+		return path
+	}
+	var out []Reached
+	seenOut := map[string]bool{}
+	emit := func(t ssa.Instruction, x *step) {
+		k := fmt.Sprintf("%p|%s", t, x.st.key(tracked))
+		if !seenOut[k] {
+			seenOut[k] = true
+			out = append(out, Reached{t, pathOf(x), x.st})
+		}
+	}
+	visited := map[vkey]bool{}
+	var queue []*step
 	startBlock := s.Fn.Blocks[0]
 	startIdx := 0
 	if s.From != nil {
 		startBlock = s.From.Block()
 		startIdx = instrIndex(s.From) + 1
 	}
-	first := &pathStep{b: startBlock}
+	init := boolState{}
+	if s.From != nil {
+		// flags decided by the branches that dominate the start
+		for k, v := range dominatingFlagValues(startBlock) {
+			init[k] = v
+		}
+	}
+	for k, v := range s.InitState {
+		init[k] = v
+	}
+	first := &step{b: startBlock, st: init}
 	if t, blocked := scan(startBlock, startIdx); t != nil {
-		return t, []*ssa.BasicBlock{startBlock}
+		emit(t, first)
+		if firstOnly {
+			return out
+		}
 	} else if !blocked {
 		queue = append(queue, first)
 	}
 	if s.From == nil {
-		visited[visitKey{startBlock, nil}] = true
+		visited[vkey{startBlock, nil, init.key(tracked)}] = true
+	}
+	// the flag a branch condition tests: (flag, negated)
+	condFlag := func(c ssa.Value) (*ssa.Phi, bool) {
+		neg := false
+		for {
+			if u, ok := c.(*ssa.UnOp); ok && u.Op == token.NOT {
+				c, neg = u.X, !neg
+				continue
+			}
+			break
+		}
+		ph, _ := c.(*ssa.Phi)
+		return ph, neg
+	}
+	// value of a branch condition under the flag state: (value, known)
+	condVal := func(c ssa.Value, st boolState) (bool, bool) {
+		neg := false
+		for {
+			if u, ok := c.(*ssa.UnOp); ok && u.Op == token.NOT {
+				c, neg = u.X, !neg
+				continue
+			}
+			break
+		}
+		if ph, ok := c.(*ssa.Phi); ok {
+			if v, known := st[ph]; known {
+				return v != neg, true
+			}
+		}
+		return false, false
 	}
 	for len(queue) > 0 {
 		cur := queue[0]
 		queue = queue[1:]
+		var cv, cknown bool
+		if iff, ok := cur.b.Instrs[len(cur.b.Instrs)-1].(*ssa.If); ok {
+			cv, cknown = condVal(iff.Cond, cur.st)
+		}
 		for i, succ := range cur.b.Succs {
-			// edge avoidance: wildcard predecessor or the predecessor we came through
 			if s.AvoidEdges[edgeKey{cur.b, i, nil}] {
 				continue
 			}
 			if cur.from != nil && (s.AvoidEdges[edgeKey{cur.b, i, cur.from}] || infeas[edgeKey{cur.b, i, cur.from}]) {
 				continue
 			}
-			vk := visitKey{succ, nil}
+			if cknown && len(cur.b.Succs) == 2 && ((cv && i == 1) || (!cv && i == 0)) {
+				continue // the flag decides this branch the other way
+			}
+			if (failIn[entryKey{cur.b, succ}] && !s.KeepFailureEntries) || (s.AvoidEntry != nil && s.AvoidEntry[entryKey{cur.b, succ}]) {
+				continue
+			}
+			st := cur.st
+			// taking a branch on a flag whose value was unknown fixes it from here on
+			if iff, ok := cur.b.Instrs[len(cur.b.Instrs)-1].(*ssa.If); ok && !cknown && len(cur.b.Succs) == 2 {
+				if ph, neg := condFlag(iff.Cond); ph != nil && ph.Block() != cur.b {
+					st = boolState{}
+					for k, v := range cur.st {
+						st[k] = v
+					}
+					st[ph] = (i == 0) != neg
+				}
+			}
+			if phs := phisOf[succ]; len(phs) > 0 {
+				base := st
+				st = boolState{}
+				for k, v := range base {
+					st[k] = v
+				}
+				for _, ph := range phs {
+					delete(st, ph)
+					for k, p := range succ.Preds {
+						if p != cur.b {
+							continue
+						}
+						switch e := ph.Edges[k].(type) {
+						case *ssa.Const:
+							if e.Value != nil {
+								st[ph] = e.Value.String() == "true"
+							}
+						case *ssa.Phi:
+							if v, known := base[e]; known {
+								st[ph] = v
+							}
+						}
+						break
+					}
+				}
+			}
 			var from *ssa.BasicBlock
 			if boolPhiCond(succ) != nil {
 				from = cur.b
-				vk = visitKey{succ, cur.b}
 			}
+			vk := vkey{succ, from, st.key(tracked)}
 			if visited[vk] {
 				continue
 			}
 			visited[vk] = true
-			st := &pathStep{b: succ, from: from, prev: cur}
+			nx := &step{b: succ, from: from, st: st, prev: cur}
 			t, blocked := scan(succ, 0)
 			if t != nil {
-				var path []*ssa.BasicBlock
-				for x := st; x != nil; x = x.prev {
-					path = append([]*ssa.BasicBlock{x.b}, path...)
+				emit(t, nx)
+				if firstOnly {
+					return out
 				}
-				return t, path
+				continue
 			}
 			if !blocked {
-				queue = append(queue, st)
+				queue = append(queue, nx)
 			}
 		}
 	}
-	return nil, nil
+	return out
 }
 
 func instrSet(ins []ssa.Instruction) func(ssa.Instruction) bool {
@@ -423,6 +682,8 @@ func (p *Prog) matchEdgesDepth(fn *ssa.Function, re *regexp.Regexp, depth int) [
 		}
 		if depth > 0 && ef.Pred == nil {
 			if v := p.successCallOfEdge(ef); v != nil && p.callImplies(fn, v, re, depth) {
+				out = append(out, ef)
+			} else if v := p.falseCallOfEdge(ef); v != nil && p.callImpliesPol(fn, v, re, depth, false) {
 				out = append(out, ef)
 			}
 		}
@@ -469,9 +730,39 @@ func (p *Prog) successCallOfEdge(ef EdgeFact) ssa.Value {
 	return nil
 }
 
+// falseCallOfEdge: the edge is taken exactly when a bool-returning call answered false.
+func (p *Prog) falseCallOfEdge(ef EdgeFact) ssa.Value {
+	iff, ok := ef.Block.Instrs[len(ef.Block.Instrs)-1].(*ssa.If)
+	if !ok {
+		return nil
+	}
+	cond := iff.Cond
+	taken := ef.Idx == 0
+	for {
+		if u, ok := cond.(*ssa.UnOp); ok && u.Op == token.NOT {
+			cond, taken = u.X, !taken
+			continue
+		}
+		break
+	}
+	if x, ok := cond.(*ssa.Call); ok && !taken {
+		return x
+	}
+	return nil
+}
+
 // callImplies: v is the error (or bool) result of a call to a repository function g; does
 // every success exit of g establish a fact that, rewritten into the caller's terms, matches re?
 func (p *Prog) callImplies(fn *ssa.Function, v ssa.Value, re *regexp.Regexp, depth int) bool {
+	return p.callImpliesPol(fn, v, re, depth, true)
+}
+
+// callImpliesPol with want == false: does every exit of the bool function g that can return
+// false establish the fact (an edge fact on the way, or the negation of the returned expression)?
+func (p *Prog) callImpliesPol(fn *ssa.Function, v ssa.Value, re *regexp.Regexp, depth int, want bool) bool {
+	if !want {
+		return p.callImpliesFalse(fn, v, re, depth)
+	}
 	if depth <= 0 {
 		return false
 	}
@@ -531,10 +822,113 @@ func (p *Prog) callImplies(fn *ssa.Function, v ssa.Value, re *regexp.Regexp, dep
 		}
 		targets = append(targets, e.Ret)
 	}
+	// a returned φ: the entries whose value establishes the fact when true / nil
+	avoidEntry := map[entryKey]bool{}
+	for _, e := range Exits(g) {
+		if len(e.Ret.Results) == 0 {
+			continue
+		}
+		ph, ok := e.Ret.Results[len(e.Ret.Results)-1].(*ssa.Phi)
+		if !ok || ph.Block() != e.Ret.Block() {
+			continue
+		}
+		for k, ev := range ph.Edges {
+			if _, isC := ev.(*ssa.Const); isC {
+				continue
+			}
+			f := ""
+			if types.Identical(ev.Type(), errorType) {
+				f = EQ(gr.E(ev), "nil")
+			} else if bt, isB := ev.Type().Underlying().(*types.Basic); isB && bt.Kind() == types.Bool {
+				f = posFact(gr, ev)
+			}
+			if f != "" && re.MatchString(f) {
+				avoidEntry[entryKey{ph.Block().Preds[k], ph.Block()}] = true
+				n++
+			}
+		}
+	}
 	if n == 0 {
 		return false
 	}
-	t, _ := (&PathSearch{Fn: g, AvoidEdges: avoid, IsTarget: instrSet(targets)}).Find()
+	t, _ := (&PathSearch{Fn: g, AvoidEdges: avoid, AvoidEntry: avoidEntry, IsTarget: instrSet(targets)}).Find()
+	return t == nil
+}
+
+func (p *Prog) callImpliesFalse(fn *ssa.Function, v ssa.Value, re *regexp.Regexp, depth int) bool {
+	call, _ := v.(*ssa.Call)
+	if call == nil || depth <= 0 {
+		return false
+	}
+	g := call.Call.StaticCallee()
+	if g == nil || g.Blocks == nil || !isProdPkgFn(g) || g == fn {
+		return false
+	}
+	res := g.Signature.Results()
+	if res.Len() != 1 {
+		return false
+	}
+	if bt, ok := res.At(0).Type().Underlying().(*types.Basic); !ok || bt.Kind() != types.Bool {
+		return false
+	}
+	r := p.R(fn)
+	bind := make([]string, len(call.Call.Args))
+	for i, a := range call.Call.Args {
+		bind[i] = r.E(a)
+	}
+	gr := p.RBound(g, bind, 1)
+	avoid := map[edgeKey]bool{}
+	n := 0
+	for _, ef := range p.edgeFactsWith(g, gr) {
+		if ef.Fact != infeasible && re.MatchString(ef.Fact) {
+			avoid[ef.Key()] = true
+			n++
+		}
+	}
+	isConstBool := func(x ssa.Value, val string) bool {
+		c, ok := x.(*ssa.Const)
+		return ok && c.Value != nil && c.Value.String() == val
+	}
+	avoidEntry := map[entryKey]bool{}
+	var targets []ssa.Instruction
+	for _, b := range g.Blocks {
+		ret, ok := b.Instrs[len(b.Instrs)-1].(*ssa.Return)
+		if !ok || len(ret.Results) != 1 {
+			continue
+		}
+		op := ret.Results[0]
+		if ph, isPhi := op.(*ssa.Phi); isPhi && ph.Block() == b {
+			for k, ev := range ph.Edges {
+				switch {
+				case isConstBool(ev, "true"):
+					avoidEntry[entryKey{b.Preds[k], b}] = true
+				case isConstBool(ev, "false"):
+				default:
+					if re.MatchString(negateFact(gr, ev)) {
+						avoidEntry[entryKey{b.Preds[k], b}] = true
+						n++
+					}
+				}
+			}
+			targets = append(targets, ret)
+			continue
+		}
+		switch {
+		case isConstBool(op, "true"):
+		case isConstBool(op, "false"):
+			targets = append(targets, ret)
+		default:
+			if re.MatchString(negateFact(gr, op)) {
+				n++
+			} else {
+				targets = append(targets, ret)
+			}
+		}
+	}
+	if n == 0 {
+		return false
+	}
+	t, _ := (&PathSearch{Fn: g, AvoidEdges: avoid, AvoidEntry: avoidEntry, KeepFailureEntries: true, IsTarget: instrSet(targets)}).Find()
 	return t == nil
 }
 
